@@ -576,6 +576,7 @@ fn run_case(c: &[u64]) -> Option<Vec<u64>> {
         5 => fallback::run(c),
         6 => run_mode6(c),
         7 => run_mode7(c),
+        8 => sub_e2e::run(c),
         _ => None,
     }
 }
@@ -1498,6 +1499,12 @@ pub fn main(args: &Args) {
     }
     for i in 0..ncases {
         let mut r = rng.fork();
+        // a request between two real nodes (loopback TCP / WebSocket): a few per run
+        if i % 100 == 7 {
+            let c = sub_e2e::gen(&mut r);
+            out.emit(&c, &exec(&c));
+            continue;
+        }
         let c = match i % 20 {
             0 | 1 | 10 => gen_mode1(&mut r),
             2 | 12 => gen_mode2(&mut r),
@@ -1963,4 +1970,354 @@ mod fallback {
         c
     }
 
+}
+
+// ------------------------------------------------------------------ mode 8
+/// C03, mode 8: a substream opened with fallback names between two real nodes.
+mod sub_e2e {
+    // Case / trace formats: coq/C03/Sub.v. Two `Litep2p` instances over loopback TCP or
+    // WebSocket; every entry of a configuration is a request-response protocol (main name +
+    // fallback names). Protocol k of node A sends one request to node B (dialing it): the real
+    // `open_substream` proposes main :: fallbacks, B's `accept_substream` offers the names of its
+    // ProtocolSet, both ends go through `report_substream_open`. Observed: A's terminal event
+    // (response with the fallback used, or failure) and which protocol of B received the request,
+    // with which fallback.
+    use crate::util::Rng;
+    use futures::StreamExt;
+    use litep2p::{
+        config::ConfigBuilder,
+        crypto::ed25519::Keypair,
+        protocol::request_response::{
+            ConfigBuilder as RrBuilder, DialOptions, RequestResponseEvent, RequestResponseHandle,
+        },
+        transport::{tcp::config::Config as TcpConfig, websocket::config::Config as WsConfig},
+        types::protocol::ProtocolName,
+        Litep2p,
+    };
+    use std::{sync::OnceLock, time::Duration};
+    use tokio::sync::mpsc;
+
+    const HEADER: &[u8] = b"/multistream/1.0.0";
+
+    struct Cur<'a> {
+        c: &'a [u64],
+        i: usize,
+    }
+    impl<'a> Cur<'a> {
+        fn n(&mut self) -> Option<u64> {
+            let v = *self.c.get(self.i)?;
+            self.i += 1;
+            Some(v)
+        }
+        fn count(&mut self) -> Option<usize> {
+            let k = self.n()?;
+            if k > (self.c.len() - self.i) as u64 {
+                return None;
+            }
+            Some(k as usize)
+        }
+        fn list(&mut self) -> Option<Vec<u64>> {
+            let k = self.count()?;
+            let v = self.c[self.i..self.i + k].to_vec();
+            self.i += k;
+            Some(v)
+        }
+        fn name(&mut self) -> Option<Vec<u8>> {
+            let runs = self.count()?;
+            let mut out = vec![];
+            for _ in 0..runs {
+                let c = self.n()?;
+                let b = self.n()?;
+                if c > 20000 {
+                    return None;
+                }
+                out.extend(std::iter::repeat(b as u8).take(c as usize));
+                if b >= 256 {
+                    return None;
+                }
+            }
+            Some(out)
+        }
+    }
+
+    type Cfg = Vec<(usize, Vec<usize>)>;
+
+    struct Case {
+        transport: u64,
+        pool: Vec<Vec<u8>>,
+        a: Cfg,
+        b: Cfg,
+        k: usize,
+    }
+
+    fn name_ok(n: &[u8]) -> bool {
+        n.iter().all(|b| *b < 128)
+            && n.first() == Some(&b'/')
+            && !n.contains(&b'\n')
+            && n != HEADER
+            && n.len() <= 64
+    }
+
+    /// wf_cfgb of Fallback.v on pool NAMES (two pool entries may hold the same name)
+    fn wf(pool: &[Vec<u8>], cfg: &Cfg) -> bool {
+        let name = |i: &usize| &pool[*i];
+        for (x, (m, _)) in cfg.iter().enumerate() {
+            if cfg.iter().skip(x + 1).any(|(m2, _)| name(m2) == name(m)) {
+                return false;
+            }
+        }
+        for (_, fs) in cfg.iter() {
+            for f in fs {
+                if cfg.iter().any(|(m, _)| name(m) == name(f)) {
+                    return false;
+                }
+            }
+        }
+        for (m1, fs1) in cfg.iter() {
+            for (m2, fs2) in cfg.iter() {
+                for f in fs1 {
+                    if fs2.iter().any(|g| name(g) == name(f)) && name(m1) != name(m2) {
+                        return false;
+                    }
+                }
+            }
+        }
+        true
+    }
+
+    fn decode(c: &[u64]) -> Option<Case> {
+        let mut cur = Cur { c, i: 0 };
+        if cur.n()? != 8 {
+            return None;
+        }
+        let transport = cur.n()?;
+        let k = cur.count()?;
+        let pool: Vec<Vec<u8>> = (0..k).map(|_| cur.name()).collect::<Option<_>>()?;
+        let mut cfgs = vec![];
+        for _ in 0..2 {
+            let k = cur.count()?;
+            let mut cfg = vec![];
+            for _ in 0..k {
+                let m = cur.n()?;
+                let fs = cur.list()?;
+                cfg.push((m, fs));
+            }
+            cfgs.push(cfg);
+        }
+        let kk = cur.n()?;
+        if cur.i != c.len() {
+            return None;
+        }
+        if !pool.iter().all(|n| name_ok(n)) {
+            return None;
+        }
+        let idx = |x: u64| -> Option<usize> { (x < pool.len() as u64).then_some(x as usize) };
+        let res = |cfg: Vec<(u64, Vec<u64>)>| -> Option<Cfg> {
+            cfg.into_iter()
+                .map(|(m, fs)| Some((idx(m)?, fs.into_iter().map(idx).collect::<Option<_>>()?)))
+                .collect()
+        };
+        let b = res(cfgs.pop()?)?;
+        let a = res(cfgs.pop()?)?;
+        let size_ok = |c: &Cfg| (1..=4).contains(&c.len());
+        if !(size_ok(&a) && size_ok(&b) && wf(&pool, &a) && wf(&pool, &b) && kk < a.len() as u64) {
+            return None;
+        }
+        Some(Case { transport, pool, a, b, k: kk as usize })
+    }
+
+    fn pname(b: &[u8]) -> ProtocolName {
+        ProtocolName::from(String::from_utf8(b.to_vec()).expect("ascii"))
+    }
+
+    fn rt() -> &'static tokio::runtime::Runtime {
+        static RT: OnceLock<tokio::runtime::Runtime> = OnceLock::new();
+        RT.get_or_init(|| {
+            tokio::runtime::Builder::new_multi_thread().worker_threads(2).enable_all().build().unwrap()
+        })
+    }
+
+    fn build(case: &Case, cfg: &Cfg) -> Option<(Litep2p, Vec<RequestResponseHandle>)> {
+        let mut builder = ConfigBuilder::new().with_keypair(Keypair::generate());
+        builder = if case.transport == 1 {
+            builder.with_websocket(WsConfig {
+                listen_addresses: vec!["/ip4/127.0.0.1/tcp/0/ws".parse().unwrap()],
+                reuse_port: false,
+                ..Default::default()
+            })
+        } else {
+            builder.with_tcp(TcpConfig {
+                listen_addresses: vec!["/ip4/127.0.0.1/tcp/0".parse().unwrap()],
+                reuse_port: false,
+                ..Default::default()
+            })
+        };
+        let mut handles = vec![];
+        for (m, fs) in cfg {
+            let (config, handle) = RrBuilder::new(pname(&case.pool[*m]))
+                .with_fallback_names(fs.iter().map(|f| pname(&case.pool[*f])).collect())
+                .with_max_size(1024)
+                .with_timeout(Duration::from_secs(5))
+                .build();
+            builder = builder.with_request_response_protocol(config);
+            handles.push(handle);
+        }
+        Some((Litep2p::new(builder.build()).ok()?, handles))
+    }
+
+    fn canon(pool: &[Vec<u8>], name: &[u8]) -> u64 {
+        pool.iter().position(|n| n.as_slice() == name).map(|i| i as u64 + 1).unwrap_or(777)
+    }
+
+    pub fn run(c: &[u64]) -> Option<Vec<u64>> {
+        let case = decode(c)?;
+        rt().block_on(async {
+            let (mut node_a, mut handles_a) = build(&case, &case.a)?;
+            let (mut node_b, handles_b) = build(&case, &case.b)?;
+            let peer_b = *node_b.local_peer_id();
+            let addr_b = node_b.listen_addresses().next()?.clone();
+            let addr_b = if addr_b.iter().any(|p| matches!(p, multiaddr::Protocol::P2p(_))) {
+                addr_b
+            } else {
+                addr_b.with(multiaddr::Protocol::P2p(peer_b.into()))
+            };
+            node_a.add_known_address(peer_b, std::iter::once(addr_b));
+
+            let mut tasks = vec![];
+            tasks.push(tokio::spawn(async move { while node_a.next_event().await.is_some() {} }));
+            tasks.push(tokio::spawn(async move { while node_b.next_event().await.is_some() {} }));
+            // B: every protocol answers every request and reports (main index, fallback)
+            let (seen_tx, mut seen_rx) = mpsc::unbounded_channel::<(usize, Option<ProtocolName>)>();
+            for (j, mut handle) in handles_b.into_iter().enumerate() {
+                let tx = seen_tx.clone();
+                tasks.push(tokio::spawn(async move {
+                    while let Some(ev) = handle.next().await {
+                        if let RequestResponseEvent::RequestReceived { request_id, fallback, .. } = ev {
+                            let _ = tx.send((j, fallback));
+                            handle.send_response(request_id, vec![42]);
+                        }
+                    }
+                }));
+            }
+            drop(seen_tx);
+
+            let mut sender = handles_a.remove(case.k);
+            // the other protocols of A are kept alive (and polled) as well
+            for mut handle in handles_a {
+                tasks.push(tokio::spawn(async move { while handle.next().await.is_some() {} }));
+            }
+            let sent = sender.send_request(peer_b, vec![7, 7, 7], DialOptions::Dial).await;
+            let mut out = vec![1];
+            let outcome = if sent.is_err() {
+                None
+            } else {
+                tokio::time::timeout(Duration::from_secs(20), async {
+                    loop {
+                        match sender.next().await {
+                            Some(RequestResponseEvent::ResponseReceived { fallback, .. }) =>
+                                break Some(Some(fallback)),
+                            Some(RequestResponseEvent::RequestFailed { .. }) => break Some(None),
+                            Some(_) => {}
+                            None => break None,
+                        }
+                    }
+                })
+                .await
+                .ok()
+                .flatten()
+            };
+            match outcome {
+                Some(Some(fallback)) => {
+                    out.push(0);
+                    out.push(fallback.map(|f| canon(&case.pool, f.as_bytes())).unwrap_or(0));
+                }
+                Some(None) => out.extend([1, 0]),
+                None => out.extend([9, 0]),
+            }
+            // what B saw (a response implies that B has recorded the request before answering)
+            let seen = tokio::time::timeout(Duration::from_millis(300), seen_rx.recv()).await.ok().flatten();
+            match seen {
+                Some((j, fallback)) => {
+                    out.push(canon(&case.pool, &case.pool[case.b[j].0]));
+                    out.push(fallback.map(|f| canon(&case.pool, f.as_bytes())).unwrap_or(0));
+                }
+                None => out.extend([0, 0]),
+            }
+            for t in tasks {
+                t.abort();
+            }
+            Some(out)
+        })
+    }
+
+    fn rle(b: &[u8]) -> Vec<u64> {
+        let mut runs: Vec<(u64, u8)> = vec![];
+        for x in b {
+            match runs.last_mut() {
+                Some((c, y)) if y == x => *c += 1,
+                _ => runs.push((1, *x)),
+            }
+        }
+        let mut out = vec![runs.len() as u64];
+        for (c, b) in runs {
+            out.extend([c, b as u64]);
+        }
+        out
+    }
+
+    /// two well-formed configurations over a small pool of versioned names: B offers a subset of
+    /// A's names (often several of them, so the preference order matters), as mains or fallbacks
+    pub fn gen(rng: &mut Rng) -> Vec<u64> {
+        let names: Vec<&[u8]> = vec![
+            b"/req/4", b"/req/3", b"/req/2", b"/req/1", b"/sync/2", b"/sync/1", b"/x", b"/x/legacy",
+            b"/aaaaaaaaaaaaaaaa/req/2", b"/other",
+        ];
+        let pool: Vec<Vec<u8>> = names.iter().map(|n| n.to_vec()).collect();
+        // `front`: names to be used first (with probability 2/3 per draw)
+        let cfg = |rng: &mut Rng, front: &[u64]| -> Vec<(u64, Vec<u64>)> {
+            let mut free: Vec<u64> = front.to_vec();
+            free.extend((0..pool.len() as u64).filter(|x| !front.contains(x)));
+            let mut nfront = front.len();
+            let mut take = |rng: &mut Rng, free: &mut Vec<u64>| -> u64 {
+                let i = if nfront > 0 && rng.chance(66) {
+                    rng.below(nfront as u64) as usize
+                } else {
+                    rng.below(free.len() as u64) as usize
+                };
+                if i < nfront {
+                    nfront -= 1;
+                }
+                free.remove(i)
+            };
+            let n = rng.range(1, 3);
+            let mut out = vec![];
+            for _ in 0..n {
+                let m = take(rng, &mut free);
+                let nf = rng.below(4).min(free.len() as u64 - 1);
+                let fs: Vec<u64> = (0..nf).map(|_| take(rng, &mut free)).collect();
+                out.push((m, fs));
+            }
+            out
+        };
+        let a = cfg(rng, &[]);
+        let k = rng.below(a.len() as u64);
+        // B mostly offers several of the names that A's sending protocol proposes
+        let mut proposed: Vec<u64> = vec![a[k as usize].0];
+        proposed.extend(a[k as usize].1.iter().copied());
+        let b = if rng.chance(75) { cfg(rng, &proposed) } else { cfg(rng, &[]) };
+        let mut c = vec![8, rng.below(2), pool.len() as u64];
+        for n in &pool {
+            c.extend(rle(n));
+        }
+        for cf in [&a, &b] {
+            c.push(cf.len() as u64);
+            for (m, fs) in cf {
+                c.push(*m);
+                c.push(fs.len() as u64);
+                c.extend(fs);
+            }
+        }
+        c.push(k);
+        c
+    }
 }
